@@ -32,6 +32,10 @@ CHECKS = [
        "Stateful model check of DisjointSetUnion against a naive partition (all pairs after every step); every parent table on <= 5 (quick) / <= 6 (thorough) nodes exhaustively plus generated tables up to 40 nodes incl. self loops, cycles, forests and shuffled rows, each checker call under a watchdog, against parent-pointer definitions; generated multi-root forest files (id base 0/1/k, roots in any rows) through read_swc(fix_roots=off|somas|nearest) and the DataFrame repair functions. Exhaustive on the small tables, exploration beyond.",
        "Trusted: the naive partition / parent-pointer reference in props/c18.py; ids 0..n-1 for has_cyclic (DSU addresses elements by id); re-basing only when the first row is a root.",
        "property-based testing (Hypothesis stateful + exhaustive small-domain enumeration): reference-model oracle"),
+    _c("C12",
+       "Generated-input search over trees (root moved away from the origin, root at any row, up to 300/2000 nodes) x Translate / TranslateOrigin / Scale / Rotate / RotateX/Y/Z / generic invertible AffineTransform x centre mode x instance/classmethod form; oracle = float64 reference map c + M(x-c) + b (Rodrigues, right-handed), fixed centre, pairwise distances under rotation, inverse restores, id/pid/type/r/extras bit-identical, input untouched; matrix builders against reference 4x4 matrices and quarter-turn handedness. Exploration, not proof.",
+       "Trusted: numpy float64 linear algebra as the reference; tolerance 1e-4 relative to the coordinate scale (float32 storage); rotation axes are unit vectors.",
+       "property-based testing (Hypothesis): float64 reference-model oracle + inverse/metamorphic relations"),
     {"id": "C02",
      "text": "Generated-input search: SWC texts assembled from the line grammar with exactly known rational values, read through every source kind/encoding/option; oracle = the generator's own table (exact equality) for valid texts, 'must raise' for texts with injected malformed lines or an undecodable byte, tag-based isomorphism for sort_nodes. No counterexample among the generated cases; this is exploration, not proof.",
      "ref": "DESIGN.md section 3 C02",
